@@ -12,6 +12,7 @@ import (
 	"strconv"
 	"strings"
 	"sync"
+	"sync/atomic"
 	"time"
 
 	"golang.org/x/sys/unix"
@@ -156,9 +157,24 @@ func (o *og) get(path string, v url.Values) (*Result, error) {
 	res, gen, err := o.get1(path, v)
 	if err == nil && res.Err == noAnswer && o.b != nil {
 		o.b.restart(gen)
+		// a wall-clock deadline is no verdict on a loaded machine: the same call is made once more
+		// against the restarted server; only a call that goes unanswered twice counts as unanswered
+		res2, gen2, err2 := o.get1(path, v)
+		if err2 == nil && res2.Err == noAnswer {
+			o.b.restart(gen2)
+			return res2, nil
+		}
+		if err2 == nil {
+			atomic.AddInt64(&answeredOnSecondAsking, 1)
+			return res2, nil
+		}
 	}
 	return res, err
 }
+
+// answeredOnSecondAsking counts calls that went unanswered once and were answered when made
+// again after the restart (reported in the evidence, not gating).
+var answeredOnSecondAsking int64
 
 func (o *og) get1(path string, v url.Values) (*Result, int, error) {
 	gen := 0
